@@ -862,10 +862,10 @@ class SymPattern:
         if isinstance(pattern, _re.Pattern):
             flags = pattern.flags & ~_re.UNICODE
             pattern = pattern.pattern
-        if flags & ~(_re.UNICODE):
+        if flags & ~(_re.UNICODE | _re.VERBOSE):
             raise Unsupported(f"regex flags {flags}")
         self.pattern = pattern
-        self.tree = sp.parse(pattern)
+        self.tree = sp.parse(pattern, flags)
         self.items = list(self.tree)
         self.groupindex = dict(self.tree.state.groupdict)
         self.groups = self.tree.state.groups - 1
